@@ -555,6 +555,11 @@ func NextObjID() int {
 
 var passObjSeq int
 
+// LockStateObservable is set (by a file vinstr generates) when the code under test calls TryLock or
+// TryRLock somewhere: the quick tier's left-mover reduction (no scheduling point before a pure release)
+// is only sound while a held lock can be observed by blocking on it alone.
+var LockStateObservable bool
+
 // ResetObjIDs restarts the numbering of pass-through mode (a sequential engine calls it before it builds
 // a fresh instance, so that every rebuild of one path sees the same seeds).
 func ResetObjIDs() { passObjSeq = 0 }
@@ -720,7 +725,7 @@ func Run(prefix []int, horizon int, quick bool, body func()) *Exec {
 	x.Deadlock, x.DeadlockInfo, x.HorizonHit, x.Diverged, x.Overflow = false, "", false, "", false
 	x.OpCount = [MaxThreads]int{}
 	x.ntrace = 0
-	x.prefix, x.Horizon, x.QuickMode = prefix, horizon, quick
+	x.prefix, x.Horizon, x.QuickMode = prefix, horizon, quick && !LockStateObservable
 	x.done = make(chan struct{}, 1)
 	x.objSeq, x.stamp = 0, 0
 	x.Pruned, x.LastKey, x.NewStates = false, "", 0
